@@ -83,3 +83,34 @@ def states_map_entries(prog: Program, func: FuncInfo) -> List[Tuple[str, Optiona
             if isinstance(lbl, EnumMember):
                 out.append((lbl.member, prog.resolve_class(func.module, n.value), n.value))
     return out
+
+
+def copy_protocol_is_deep(chk, rule: str) -> None:
+    """Rules that accept ``copy.deepcopy(x)`` as "detached from x" rely on deepcopy being deep: a class of the package that
+    overrides ``__deepcopy__`` (or pickling via ``__reduce__``) and HOLDS values given to its constructor must build a new
+    object, never hand back ``self`` or one of its own members (shallow immutability is not immutability of what it
+    holds).  A stateless sentinel may return itself; ``__copy__`` is a shallow copy by definition and is not constrained."""
+    import ast as _ast
+    from ..model import norm as _norm
+    n = 0
+    for c in chk.prog.all_classes():
+        for name in ('__deepcopy__', '__reduce__', '__reduce_ex__'):
+            f = c.methods.get(name)
+            if f is None:
+                continue
+            init = c.lookup('__init__')
+            holds = init is not None and any(isinstance(x, (_ast.Assign, _ast.AnnAssign)) and x.value is not None
+                                             and any(isinstance(y, _ast.Name) and y.id in init.params[1:] + ([init.node.args.vararg.arg] if init.node.args.vararg else [])
+                                                     + ([init.node.args.kwarg.arg] if init.node.args.kwarg else []) for y in _ast.walk(x.value))
+                                             for x in _ast.walk(init.node))
+            if not holds:
+                continue
+            n += 1
+            for r in [x for x in _ast.walk(f.node) if isinstance(x, _ast.Return)]:
+                v = r.value
+                shared = v is None or (isinstance(v, _ast.Name) and v.id == 'self') or (isinstance(v, _ast.Attribute) and _norm(v).startswith('self.'))
+                chk.ob(rule, f, not shared, f'{c.name}.{name} returns {_norm(v) if v is not None else "None"}: '
+                       + ('the "copy" is the object itself -- every deep copy that is supposed to detach a snapshot stops here' if shared else 'a newly built object'),
+                       node=r, kind=f'copy-protocol:{c.name}.{name}')
+    chk.units['copy_protocol_overrides'] = n
+    chk.ob(rule, 'plumpy', True, f'{n} class(es) override the copy protocol; none hands back itself', kind='copy-protocol-scan', expr='copy protocol')
